@@ -375,6 +375,15 @@ class NumInterp:
             return AV("int", b, lo, hi, a.lo_w, a.hi_w, a.mono, aff, elo, ehi)
         if op in ("urem", "srem"):
             self.div_check(inst, b_)
+            if op == "urem" and b_.is_const() and b_.lo > 0:
+                a = self.as_unsigned(a, inst)
+                if not a.top:
+                    if a.hi < b_.lo:
+                        return a
+                    t = self.top_int(b)
+                    t.hi = b_.lo - 1
+                    t.top = False
+                    return t
             return self.top_int(b)
         if op == "and":
             if a.is_const() and not b_.is_const():
@@ -526,13 +535,13 @@ class NumInterp:
             aff = elo = ehi = None
             re = relerr(lo, hi)
             if re is not None:
-                if b_.is_const() and a.aff is not None:
+                if b_.is_const() and a.aff is not None and abs(b_.lo) != INF and not (op == "fdiv" and b_.lo == 0):
                     c = Fr(b_.lo)
                     c = c if op == "fmul" else 1 / c
                     aff = {k: v * c for k, v in a.aff.items()}
                     e1, e2 = a.elo * c, a.ehi * c
                     elo, ehi = min(e1, e2) - re, max(e1, e2) + re
-                elif a.is_const() and b_.aff is not None and op == "fmul":
+                elif a.is_const() and b_.aff is not None and op == "fmul" and abs(a.lo) != INF:
                     c = Fr(a.lo)
                     aff = {k: v * c for k, v in b_.aff.items()}
                     e1, e2 = b_.elo * c, b_.ehi * c
